@@ -197,5 +197,10 @@ Fixpoint vtrips (v : vtree) : list trip :=
   end.
 
 End Trees.
+
+(* all sub-derivations of a derivation (itself first) *)
+Fixpoint dsubs {tok} (d : Driver.dtree tok) : list (Driver.dtree tok) :=
+  d :: match d with Driver.Leaf _ => [] | Driver.Node _ cs => flat_map dsubs cs end.
+
 Arguments vtree : clear implicits.
 Arguments presult : clear implicits.
